@@ -18,7 +18,7 @@ def run(tier, seed):
         "C03", tier, seed,
         oracles=ORACLES,
         capacities=[1] if tier == "quick" else [1, "default"],
-        flavour="full",
+        flavour="full" if tier == "quick" else "wide",
         opts_extra={"sparse_output_only": True, "recomputes": 0},
         rule="every kernel with a compressed output level x dimension vectors x every joint input structure "
              "(all-empty operands, empty rows, stored-but-empty segments, disjoint supports included); for every "
